@@ -52,6 +52,10 @@ def gen(tier, seed):
         for tables in (['edge_node'], ['edge_node', 'edge_face'], ['edge_node', 'face_edge', 'edge_face', 'face_face']):
             yield {'mesh': mesh, 'start_index': 0, 'fill': 'auto', 'transposed': False, 'tables': tables, 'edge_dimension': 'auto',
                    'coords_as': 'vars', 'edge_order': 'reverse'}
+    for mesh in meshes:     # an edge dimension named by the mesh on which no variable is defined (it has no size): every edge table is derived
+        for orphan in (False, True):
+            yield {'mesh': mesh, 'start_index': 0, 'fill': 'auto', 'transposed': False, 'tables': [], 'edge_dimension': True, 'edge_values': False,
+                   'coords_as': 'vars', 'edge_order': 'first-seen', 'orphan': orphan}
     for mesh in meshes:     # other spellings
         yield {'mesh': mesh, 'start_index': None, 'fill': 'int_fill', 'transposed': False, 'tables': ['edge_node'], 'edge_dimension': 'auto',
                'coords_as': 'vars', 'edge_order': 'reverse', 'two_name': 'nv'}
@@ -97,7 +101,7 @@ def test_fill(inp):
 def build(inp):
     m = inp['mesh']
     kw = {k: inp[k] for k in ('start_index', 'fill', 'transposed', 'edge_dimension', 'coords_as', 'edge_order')}
-    for k in ('two_name', 'edge_transposed', 'face_dimension_attr', 'edge_face_missing_first'):
+    for k in ('two_name', 'edge_transposed', 'face_dimension_attr', 'edge_face_missing_first', 'edge_values'):
         if k in inp:
             kw[k] = inp[k]
     ds = datasets.ugrid(m['ny'], m['nx'], split=tuple(map(tuple, m['split'])), merge=tuple(map(tuple, m['merge'])), tables=tuple(inp['tables']),
@@ -120,6 +124,16 @@ def build(inp):
                 ds[name] = (v.dims, new.astype(vals.dtype), attrs)
                 ds[name].encoding.update(enc)
     node_x, node_y, faces = datasets.quad_tri_mesh(m['ny'], m['nx'], split=tuple(map(tuple, m['split'])), merge=tuple(map(tuple, m['merge'])))
+    if inp.get('orphan'):
+        # a node that no face uses (V - E + F is then not 1): the tables and counts are those of the faces all the same
+        attrs = {k: dict(ds[k].attrs) for k in ds.variables}
+        enc = {k: dict(ds[k].encoding) for k in ds.variables}
+        ds = ds.pad({'nMesh2_node': (0, 1)}, constant_values=0)
+        for k in attrs:
+            ds[k].attrs.update(attrs[k])
+            ds[k].encoding.update(enc[k])
+        ds['Mesh2_node_x'].values[-1], ds['Mesh2_node_y'].values[-1] = float(node_x.max()) + 3.0, float(node_y.max()) + 3.0
+        node_x, node_y = ds['Mesh2_node_x'].values.copy(), ds['Mesh2_node_y'].values.copy()
     return ds, faces, node_x, node_y
 
 
